@@ -183,6 +183,9 @@ def write_cell(root, cell_dir, cell):
     dirs = level_dirs(cell_dir)
     for lv, opt in enumerate(levels):
         if opt == 0:
+            if (cell[0] + cell[1] + lv) % 5 == 0:
+                # a REUSE.toml of zero bytes is like any other empty file: not there
+                (root / dirs[lv] / "REUSE.toml").write_text("")
             continue
         opts = opt if isinstance(opt, list) else [opt]
         rel = "/".join(["d1", "d2", FN["name"]][lv:])
@@ -262,7 +265,11 @@ def run_case(case, ctx):
         if r.escaped:
             res.violation("escaped-exception", f"{r.exc_type} left main()", tb=r.exc_tb)
             return res.out()
-        data = json.loads(r.stdout)
+        try:
+            data = json.loads(r.stdout)
+        except ValueError:
+            res.violation("lint-gives-no-report", f"lint --json exit {r.exit_code} without a report on a project of well-formed REUSE.toml files", **r.brief())
+            return res.out()
         by = {f["path"]: f for f in data["files"]}
         for j, cell in enumerate(case["cells"]):
             cd = names[j]
@@ -341,7 +348,11 @@ def run_dep5(case, ctx, res):
         if r.escaped:
             res.violation("escaped-exception", f"{r.exc_type} left main()", tb=r.exc_tb)
             return res.out()
-        data = json.loads(r.stdout)
+        try:
+            data = json.loads(r.stdout)
+        except ValueError:
+            res.violation("lint-gives-no-report", f"lint --json exit {r.exit_code} without a report", **r.brief())
+            return res.out()
         by = {f["path"]: f for f in data["files"]}
         for j, (own, dot, d) in enumerate(case["cells"]):
             cd = f"c{j:04d}"
@@ -383,7 +394,11 @@ def run_meson(case, ctx, res):
             if r.escaped:
                 res.violation("escaped-exception", f"{r.exc_type}", tb=r.exc_tb)
                 continue
-            by = {f["path"]: observed_items(f) for f in json.loads(r.stdout)["files"]}
+            try:
+                by = {f["path"]: observed_items(f) for f in json.loads(r.stdout)["files"]}
+            except ValueError:
+                res.violation("lint-gives-no-report", f"lint --json exit {r.exit_code} without a report", **r.brief())
+                continue
             if not include:
                 extra = [p for p in by if p.startswith("subprojects/libx/")]
                 if extra:
